@@ -31,6 +31,7 @@ func TestC08(t *testing.T) {
 	}
 	var held []start
 	perSc := map[string]int{} // closure starts kept per scenario
+	seenSc := map[string]int{} // paused/frozen states seen per scenario: the first 3000 are all used, then every 5th
 	k := 0
 	runWorld(t, run, scs, []func(*w.MonCtx){w.MonC08, w.MonC14Status, w.MonC05}, 0, func(sc *w.Scenario, s *w.State, d int) {
 		e := s.EDS("ns", "foo")
@@ -45,7 +46,8 @@ func TestC08(t *testing.T) {
 		}
 		if w.AnnotTrue(e, "rolling-update-paused") || w.AnnotTrue(e, "rollout-frozen") || w.AnnotTrue(e, "canary-paused") || autoPaused {
 			k++
-			if h.Thorough() || k%5 == 0 {
+			seenSc[sc.Name]++
+			if h.Thorough() || seenSc[sc.Name] <= 3000 || k%5 == 0 {
 				if perSc[sc.Name] < 50000 {
 					perSc[sc.Name]++
 					held = append(held, start{sc, s})
